@@ -18,12 +18,21 @@ def search(fn, cfg, model, budget=450):
     r = rtc.run_one(fn, cfg, model, 0)
     if r['ok'] is False:
         return model, r
+    amps = ('unit', 'tiny', 'huge', 'sparse') if fn in rtc.LINEAR_FNS and 'amp' not in cfg else ('unit',)
+    for amp in amps[1:]:
+        r2 = rtc.run_one(fn, dict(cfg, amp=amp), model, 0)
+        if r2['ok'] is False:
+            return dict(model, amp=amp), r2
     if fn in ('precision', 'purity', 'history_order', 'functional_dtype', 'dtcwt_table'):      # fixed shapes: only the seed varies
         for sd in (1, 2):
             r2 = rtc.run_one(fn, cfg, model, sd)
             if r2['ok'] is False:
                 return model, r2
         return None, r
+    # option combinations the recipe leaves open (absent levels of the synthesis pyramids)
+    variants = [{}]
+    if fn == 'dwt_inverse' and 'none_level' not in cfg:
+        variants += [{'none_level': 0}, {'none_level': 1}]
     for total in range(0, 30):
         for H, W, L2 in itertools.product(range(1, 12), range(1, 12), range(1, 6)):
             if H + W + L2 != total + 3:
@@ -31,12 +40,15 @@ def search(fn, cfg, model, budget=450):
             for C, J in ((1, 1), (2, 2), (1, 3)):
                 sizes = dict(model)
                 sizes.update({'H': H, 'W': W, 'N': W, 'L2': L2, 'Lc2': L2, 'Lr2': max(1, (L2 + 1) % 4), 'C': C, 'B': 1, 'J': J})
-                r = rtc.run_one(fn, cfg, sizes, tried)
-                tried += 1
-                if r['ok'] is False:
-                    return sizes, r
-                if tried >= budget:
-                    return None, r
+                for extra in variants:
+                    amp = amps[(tried // 2) % len(amps)] if tried % 2 else 'unit'
+                    cfg2 = dict(cfg, **extra)
+                    r = rtc.run_one(fn, dict(cfg2, amp=amp) if amp != 'unit' else cfg2, sizes, tried)
+                    tried += 1
+                    if r['ok'] is False:
+                        return dict(sizes, _seed=tried - 1, _cfg=extra, **({'amp': amp} if amp != 'unit' else {})), r
+                    if tried >= budget:
+                        return None, r
     return None, r
 
 
@@ -50,6 +62,10 @@ if __name__ == '__main__':
         sizes, r = search(fn, cfg, model)
         print(json.dumps({'reproduced': sizes is not None, 'sizes': sizes, 'detail': r['detail']}))
         sys.exit(1 if sizes is not None else 0)
-    r = rtc.run_one(fn, cfg, spec.get('failing_input') or model, spec.get('seed', 0))
+    fi = dict(spec.get('failing_input') or model)
+    if 'amp' in fi:
+        cfg = dict(cfg, amp=fi.pop('amp'))
+    cfg = dict(cfg, **fi.pop('_cfg', {}))
+    r = rtc.run_one(fn, cfg, fi, fi.pop('_seed', spec.get('seed', 0)))
     print(json.dumps({'reproduced': r['ok'] is False, 'detail': r['detail']}))
     sys.exit(1 if r['ok'] is False else 0)
